@@ -581,6 +581,194 @@ impl Director {
         }
     }
 
+    /// Directed interleavings around the loop-back paths: a block is parked (missing payload or
+    /// missing parent), the node's voting state moves on (own timeout, a vote for an equivocating
+    /// block, a certificate for a later round), and then the parked block is released.
+    async fn directed(&mut self, run: &mut Run<'_>, template: u32) {
+        let node = run.w.node;
+        let round = self.round;
+        let leader = run.w.u.leader(round);
+        run.rep.hit(&format!("template.{}", template));
+        if leader == node {
+            return;
+        }
+        let tc = if self.tip.round + 1 == round { None } else { self.tc.clone() };
+        let fresh = |rng: &mut SmallRng| crate::sym::sha(&rng.gen::<u64>().to_le_bytes());
+        match template {
+            0 => {
+                // parked on payload, own timeout, then the batch arrives
+                let d = fresh(&mut self.rng);
+                let a = run.w.u.mk_block(leader, round, self.tip.clone(), tc, vec![d.clone()]);
+                self.blocks.insert(a.digest().0, a.clone());
+                self.give(run, Stim::Msg(ConsensusMessage::Propose(a))).await;
+                self.give(run, Stim::Timer).await;
+                self.give(run, Stim::Batch(d)).await;
+            }
+            1 => {
+                // parked on payload, an equivocating block of the same round is voted, then the batch arrives
+                let d = fresh(&mut self.rng);
+                let a = run.w.u.mk_block(leader, round, self.tip.clone(), tc.clone(), vec![d.clone()]);
+                let b = run.w.u.mk_block(leader, round, self.tip.clone(), tc, vec![]);
+                self.blocks.insert(a.digest().0, a.clone());
+                self.blocks.insert(b.digest().0, b.clone());
+                self.give(run, Stim::Msg(ConsensusMessage::Propose(a))).await;
+                self.give(run, Stim::Msg(ConsensusMessage::Propose(b))).await;
+                self.give(run, Stim::Batch(d)).await;
+            }
+            2 | 3 => {
+                // parked on a missing parent; own timeout (2) or an equivocating sibling (3); then the parent arrives
+                let next = run.w.u.leader(round + 1);
+                if next == node {
+                    return;
+                }
+                let p = run.w.u.mk_block(leader, round, self.tip.clone(), tc, vec![]);
+                self.blocks.insert(p.digest().0, p.clone());
+                let signers = match quorum_subset(&run.w.u, &mut self.rng, &others(&run.w.u, node)) {
+                    Some(s) => s,
+                    None => return,
+                };
+                let qc = run.w.u.mk_qc(p.digest(), round, &signers);
+                let c = run.w.u.mk_block(next, round + 1, qc.clone(), None, vec![]);
+                self.blocks.insert(c.digest().0, c.clone());
+                self.give(run, Stim::Msg(ConsensusMessage::Propose(c))).await;
+                if template == 2 {
+                    self.give(run, Stim::Timer).await;
+                } else {
+                    let d = fresh(&mut self.rng);
+                    self.give(run, Stim::Batch(d.clone())).await;
+                    let c2 = run.w.u.mk_block(next, round + 1, qc.clone(), None, vec![d]);
+                    self.blocks.insert(c2.digest().0, c2.clone());
+                    self.give(run, Stim::Msg(ConsensusMessage::Propose(c2))).await;
+                }
+                self.give(run, Stim::Msg(ConsensusMessage::Propose(p))).await;
+                self.qcs.push(qc.clone());
+                self.tip = qc;
+                self.tc = None;
+                self.round = round + 1;
+            }
+            4 => {
+                // parked on payload while a TC for its round arrives, then the batch
+                let d = fresh(&mut self.rng);
+                let a = run.w.u.mk_block(leader, round, self.tip.clone(), tc, vec![d.clone()]);
+                self.blocks.insert(a.digest().0, a.clone());
+                self.give(run, Stim::Msg(ConsensusMessage::Propose(a))).await;
+                if let Some(s) = quorum_subset(&run.w.u, &mut self.rng, &others(&run.w.u, node)) {
+                    let entries: Vec<(u64, u64)> = s.iter().map(|j| (*j, self.tip.round)).collect();
+                    let t = run.w.u.mk_tc(round, &entries);
+                    self.give(run, Stim::Msg(ConsensusMessage::TC(t.clone()))).await;
+                    self.tc = Some(t);
+                    self.round = round + 1;
+                }
+                self.give(run, Stim::Batch(d)).await;
+            }
+            5 => {
+                // a view change that leaves the node one QC behind: it learns TC(round) reporting the
+                // tip, then the next leader's block carrying the tip's QC and that TC, then times out
+                let next = run.w.u.leader(round + 1);
+                if next == node {
+                    return;
+                }
+                if let Some(s) = quorum_subset(&run.w.u, &mut self.rng, &others(&run.w.u, node)) {
+                    let entries: Vec<(u64, u64)> = s.iter().map(|j| (*j, self.tip.round)).collect();
+                    let t = run.w.u.mk_tc(round, &entries);
+                    self.give(run, Stim::Msg(ConsensusMessage::TC(t.clone()))).await;
+                    let b = run.w.u.mk_block(next, round + 1, self.tip.clone(), Some(t.clone()), vec![]);
+                    self.blocks.insert(b.digest().0, b.clone());
+                    self.give(run, Stim::Msg(ConsensusMessage::Propose(b))).await;
+                    self.give(run, Stim::Timer).await;
+                    self.tc = Some(t);
+                    self.round = round + 1;
+                }
+            }
+            6 => {
+                // Attack on agreement (a Byzantine leader plus slow honest nodes): the node votes B_r,
+                // times out of rounds r and r+1, and only then sees B_{r+1} (which carries QC_r).  If it
+                // still votes for it, its vote completes QC_{r+1}, B_r gets committed, and a conflicting
+                // branch justified by TC_{r+1} (all reporting the old high QC) gets committed as well.
+                let r = round;
+                let n = run.w.u.n() as u64;
+                if (r..=r + 4).any(|x| run.w.u.leader(x) == node) || run.w.u.leader(r + 1 + n) == node {
+                    return;
+                }
+                let oth = others(&run.w.u, node);
+                // a minority of the others that reaches the quorum only together with the node
+                let mut minority: Vec<u64> = vec![];
+                let mut acc = 0;
+                for j in &oth {
+                    if acc + run.w.u.stake(*j) + run.w.u.stake(node) <= run.w.u.quorum() + 0 && acc + run.w.u.stake(*j) < run.w.u.quorum() {
+                        minority.push(*j);
+                        acc += run.w.u.stake(*j);
+                    }
+                }
+                if acc + run.w.u.stake(node) < run.w.u.quorum() || acc >= run.w.u.quorum() {
+                    return;
+                }
+                let base_qc = self.tip.clone();
+                let b_r = run.w.u.mk_block(run.w.u.leader(r), r, base_qc.clone(), tc.clone(), vec![]);
+                self.blocks.insert(b_r.digest().0, b_r.clone());
+                self.give(run, Stim::Msg(ConsensusMessage::Propose(b_r.clone()))).await;
+                let all_others_q = match quorum_subset(&run.w.u, &mut self.rng, &oth) {
+                    Some(s) => s,
+                    None => return,
+                };
+                let qc_r = run.w.u.mk_qc(b_r.digest(), r, &all_others_q);
+                let b_r1 = run.w.u.mk_block(run.w.u.leader(r + 1), r + 1, qc_r.clone(), None, vec![]);
+                self.blocks.insert(b_r1.digest().0, b_r1.clone());
+                // the node times out of round r (with the others) and of round r+1 (alone so far)
+                self.give(run, Stim::Timer).await;
+                for j in &all_others_q {
+                    let t = run.w.u.mk_timeout(r, base_qc.clone(), *j);
+                    self.give(run, Stim::Msg(ConsensusMessage::Timeout(t))).await;
+                }
+                self.give(run, Stim::Timer).await;
+                let own_timeout = run.last.frames.iter().find_map(|(_, m)| match m {
+                    ConsensusMessage::Timeout(t) if t.round == r + 1 => Some((t.author, t.signature.clone(), t.high_qc.round)),
+                    _ => None,
+                });
+                // the delayed block arrives
+                self.give(run, Stim::Msg(ConsensusMessage::Propose(b_r1.clone()))).await;
+                let late_vote = run.last.frames.iter().find_map(|(_, m)| match m {
+                    ConsensusMessage::Vote(v) if v.round == r + 1 && v.hash == b_r1.digest() => Some(v.clone()),
+                    _ => None,
+                });
+                if let (Some(v), Some(own_to)) = (late_vote, own_timeout) {
+                    // QC_{r+1} = the minority + the node's late vote; shown inside a far-future block
+                    let mut qc_r1 = run.w.u.mk_qc(b_r1.digest(), r + 1, &minority);
+                    qc_r1.votes.push((v.author, v.signature.clone()));
+                    let far = r + 1 + n;
+                    let b_far = run.w.u.mk_block(run.w.u.leader(far), far, qc_r1, None, vec![]);
+                    self.blocks.insert(b_far.digest().0, b_far.clone());
+                    self.give(run, Stim::Msg(ConsensusMessage::Propose(b_far))).await;
+                    // the conflicting branch on top of the old tip, justified by TC_{r+1}
+                    let mut tc_r1 = run.w.u.mk_tc(r + 1, &minority.iter().map(|j| (*j, base_qc.round)).collect::<Vec<_>>());
+                    tc_r1.votes.push(own_to);
+                    let c2 = run.w.u.mk_block(run.w.u.leader(r + 2), r + 2, base_qc.clone(), Some(tc_r1), vec![]);
+                    self.blocks.insert(c2.digest().0, c2.clone());
+                    self.give(run, Stim::Msg(ConsensusMessage::Propose(c2.clone()))).await;
+                    let mut s3 = all_others_q.clone();
+                    s3.truncate(all_others_q.len());
+                    let qc_c2 = run.w.u.mk_qc(c2.digest(), r + 2, &all_others_q);
+                    let c3 = run.w.u.mk_block(run.w.u.leader(r + 3), r + 3, qc_c2, None, vec![]);
+                    self.blocks.insert(c3.digest().0, c3.clone());
+                    self.give(run, Stim::Msg(ConsensusMessage::Propose(c3.clone()))).await;
+                    let qc_c3 = run.w.u.mk_qc(c3.digest(), r + 3, &all_others_q);
+                    let c4 = run.w.u.mk_block(run.w.u.leader(r + 4), r + 4, qc_c3.clone(), None, vec![]);
+                    self.blocks.insert(c4.digest().0, c4.clone());
+                    self.give(run, Stim::Msg(ConsensusMessage::Propose(c4))).await;
+                    self.qcs.push(qc_c3.clone());
+                    self.tip = qc_c3;
+                    self.tc = None;
+                    self.round = r + 4;
+                } else {
+                    // the honest outcome: no late vote; the network goes on from TC_{r+1} if it can
+                    self.round = r + 1;
+                    self.tc = None;
+                }
+            }
+            _ => {}
+        }
+    }
+
     async fn mischief(&mut self, run: &mut Run<'_>) {
         let node = run.w.node;
         let u_n = run.w.u.n() as u64;
@@ -729,9 +917,14 @@ pub fn run_scenario(seed: u64, steps: usize, rep: &mut Report, use_model: bool) 
             batches_known: vec![],
         };
         d.absorb(&mut run);
-        for _ in 0..steps {
+        let template = d.rng.gen_range(0, 8u32);
+        let template_at = d.rng.gen_range(0, steps.max(1) / 2 + 1);
+        for step in 0..steps {
             if run.diverged {
                 break;
+            }
+            if step == template_at {
+                d.directed(&mut run, template).await;
             }
             let x = d.rng.gen_range(0, 10);
             if x < 6 {
